@@ -105,14 +105,25 @@ pub enum Kind { Node, Rel, Val }
 
 pub struct QGen<'a> {
     pub rng: &'a mut Rng,
+    /// 1 = single MATCH; >= 2 adds comma patterns, several MATCH, OPTIONAL MATCH, WITH, UNWIND,
+    /// sum/avg/min/max/collect
     pub version: u32,
+    /// variable-length relationship steps (grammar v3), independent of `version`
+    pub varlen: bool,
     pub scope: Vec<(String, Kind)>,
     fresh: usize,
+    /// this query may use constructs on which the engine is known to deviate (OPTIONAL MATCH
+    /// that is disconnected / has several patterns / filters on outer variables, comma
+    /// patterns with two relationship-bearing paths, WITH aggregates without a grouping key,
+    /// UNWIND between MATCH and WITH, sum/avg DISTINCT); the other ~92 % of the v2 queries stay
+    /// inside the subset the engine is supposed to answer correctly
+    pub risky: bool,
 }
 
 impl<'a> QGen<'a> {
-    pub fn new(rng: &'a mut Rng, version: u32) -> Self {
-        QGen { rng, version, scope: vec![], fresh: 0 }
+    pub fn new(rng: &'a mut Rng, version: u32, varlen: bool) -> Self {
+        let risky = version >= 2 && rng.chance(1, 12);
+        QGen { rng, version, varlen, scope: vec![], fresh: 0, risky }
     }
 
     fn fresh(&mut self, prefix: &str) -> String {
@@ -278,7 +289,7 @@ impl<'a> QGen<'a> {
 
     fn gen_rp(&mut self) -> RP {
         let mut rp = RP { var: None, types: vec![], dir: Dir::Out, props: vec![], range: None };
-        let varlen = self.version >= 3 && self.rng.chance(1, 3);
+        let varlen = self.varlen && self.rng.chance(1, 2);
         if varlen {
             let lo = self.rng.below(3) as u32;
             let hi = match self.rng.below(4) {
@@ -319,17 +330,76 @@ impl<'a> QGen<'a> {
         for _ in 0..hops {
             let rp = self.gen_rp();
             let named = self.rng.chance(4, 5);
-            let np = self.gen_np(named);
+            let before = self.scope.len();
+            let mut np = self.gen_np(named);
+            // a variable-length step that closes on an already bound variable re-binds it in
+            // the engine (known deviation `varlen-bound-target`): keep the target fresh, except rarely
+            let reused = np.var.is_some() && self.scope.len() == before;
+            if rp.range.is_some() && reused && !self.rng.chance(1, 30) {
+                let nv = self.fresh("n");
+                self.scope.push((nv.clone(), Kind::Node));
+                np.var = Some(nv);
+            }
             steps.push((rp, np));
         }
         Path { start, steps }
     }
 
     fn gen_match(&mut self, optional: bool) -> Clause {
+        if optional && !self.risky {
+            return self.gen_optional_safe();
+        }
         let npats = if self.version >= 2 && self.rng.chance(1, 5) { 2 } else { 1 };
-        let pats: Vec<Path> = (0..npats).map(|_| self.gen_path()).collect();
+        let mut pats: Vec<Path> = vec![];
+        for i in 0..npats {
+            let mut p = self.gen_path();
+            // two relationship-bearing comma patterns: cross-pattern isomorphism is a known deviation
+            if i > 0 && !self.risky && pats.iter().any(|q| !q.steps.is_empty()) {
+                p.steps.clear();
+            }
+            pats.push(p);
+        }
         let w = if self.rng.chance(3, 5) { Some(self.gen_pred(2)) } else { None };
         Clause::Match(optional, pats, w)
+    }
+
+    /// OPTIONAL MATCH inside the subset the engine implements as a left outer join: one
+    /// pattern with >= 1 hop that starts at an already bound node; a WHERE, if any, tests a
+    /// variable the pattern introduces
+    fn gen_optional_safe(&mut self) -> Clause {
+        let ns = self.vars_of(Kind::Node);
+        if ns.is_empty() {
+            return self.gen_match(false);
+        }
+        let start_var = self.rng.pick(&ns).clone();
+        let start = NP { var: Some(start_var), labels: vec![], props: vec![] };
+        let hops = 1 + self.rng.usize(2);
+        let mut steps = vec![];
+        let mut new_vars: Vec<String> = vec![];
+        for _ in 0..hops {
+            let before = self.scope.len();
+            let rp = self.gen_rp();
+            let v = self.fresh("n");
+            self.scope.push((v.clone(), Kind::Node));
+            let mut np = NP { var: Some(v), labels: vec![], props: vec![] };
+            if self.rng.chance(1, 4) {
+                np.labels.push(self.rng.pick(&["A", "B", "C"]).to_string());
+            }
+            for (n, _) in &self.scope[before..] {
+                new_vars.push(n.clone());
+            }
+            steps.push((rp, np));
+        }
+        let w = if self.rng.chance(1, 3) {
+            let v = self.rng.pick(&new_vars).clone();
+            let key = if self.rng.chance(2, 3) { "k" } else { "j" };
+            let op = *self.rng.pick(&[CmpOp::Eq, CmpOp::Ne, CmpOp::Lt, CmpOp::Ge]);
+            let lit = self.scalar_lit();
+            Some(E::Cmp(op, Box::new(E::prop(&v, key)), Box::new(E::Lit(lit))))
+        } else {
+            None
+        };
+        Clause::Match(true, vec![Path { start, steps }], w)
     }
 
     fn gen_item_expr(&mut self) -> E {
@@ -359,7 +429,11 @@ impl<'a> QGen<'a> {
         if k == AggKind::CountStar {
             return Item::Agg(k, false, E::Lit(V::Null), alias);
         }
-        let distinct = self.version >= 2 && self.rng.chance(1, 4) || (k == AggKind::Count && self.rng.chance(1, 5));
+        let distinct = match k {
+            AggKind::Sum | AggKind::Avg => self.risky && self.rng.chance(1, 2),
+            AggKind::Count => self.rng.chance(1, 4),
+            _ => self.version >= 2 && self.rng.chance(1, 4),
+        };
         let arg = match k {
             AggKind::Count | AggKind::Collect | AggKind::Min | AggKind::Max => {
                 if self.rng.chance(1, 4) && !self.scope.is_empty() && k == AggKind::Count {
@@ -388,11 +462,16 @@ impl<'a> QGen<'a> {
     fn gen_proj(&mut self, is_return: bool) -> Proj {
         let mut p = Proj::default();
         let with_agg = self.rng.chance(1, 4);
-        let n_items = 1 + self.rng.usize(3);
+        let mut n_items = 1 + self.rng.usize(3);
+        // WITH <aggregates only> over no rows: the engine returns no row (known deviation)
+        let need_key = !is_return && with_agg && !self.risky;
+        if need_key && n_items == 1 {
+            n_items = 2;
+        }
         let mut new_scope: Vec<(String, Kind)> = vec![];
         for i in 0..n_items {
             let alias = if is_return { format!("c{}", i) } else { self.fresh("x") };
-            if with_agg && (i == n_items - 1 || self.rng.chance(1, 3)) {
+            if with_agg && (i == n_items - 1 || (self.rng.chance(1, 3) && !(need_key && i == 0))) {
                 p.items.push(self.gen_agg(alias.clone()));
                 new_scope.push((alias, Kind::Val));
             } else {
@@ -464,23 +543,36 @@ impl<'a> QGen<'a> {
         clauses.push(self.gen_match(false));
         if self.version >= 2 {
             let extra = match self.rng.below(10) {
-                0..=4 => 0,
-                5..=8 => 1,
+                0..=3 => 0,
+                4..=7 => 1,
                 _ => 2,
             };
-            for _ in 0..extra {
+            let mut unwound = false;
+            for k in 0..extra {
+                let last = k + 1 == extra;
                 match self.rng.below(10) {
                     0..=2 => clauses.push(self.gen_match(false)),
                     3..=5 => clauses.push(self.gen_match(true)),
                     6..=8 => {
-                        let p = self.gen_proj(false);
-                        clauses.push(Clause::With(p));
+                        // WITH after an UNWIND that follows a MATCH: the engine applies the
+                        // UNWIND after the WITH (known deviation)
+                        if unwound && !self.risky {
+                            clauses.push(self.gen_match(false));
+                        } else {
+                            let p = self.gen_proj(false);
+                            clauses.push(Clause::With(p));
+                        }
                     }
                     _ => {
-                        let x = self.fresh("u");
-                        let e = if self.rng.chance(1, 2) { E::Lit(self.list_lit()) } else { self.prop_access().unwrap_or(E::Lit(V::List(vec![]))) };
-                        clauses.push(Clause::Unwind(e, x.clone()));
-                        self.scope.push((x, Kind::Val));
+                        if last || self.risky {
+                            let x = self.fresh("u");
+                            let e = if self.rng.chance(1, 2) { E::Lit(self.list_lit()) } else { self.prop_access().unwrap_or(E::Lit(V::List(vec![]))) };
+                            clauses.push(Clause::Unwind(e, x.clone()));
+                            self.scope.push((x, Kind::Val));
+                            unwound = true;
+                        } else {
+                            clauses.push(self.gen_match(false));
+                        }
                     }
                 }
             }
